@@ -58,6 +58,10 @@ CLAIMS = {
         text='Bounded symbolic model checking of add_var/declare (symbolic level) and undeclare_vars (every subset) from an arbitrary valid state: order views stay one bijection, refusals leave everything intact, all functions unchanged by name, manager canonical.',
         note='undeclare_vars runs through the literal-lifting loader (dict comprehensions -> symbolic-key dicts), validated by concrete replay on the unlifted module. One known finding (add_var with a gap level).',
         ref='DESIGN.md section 8 C14'),
+    'C15': dict(
+        text='Bounded symbolic model checking of the MDD manager: the real MDD.find_or_add, _top_cofactor, ite (unstubbed), apply, collect_garbage, incref/decref, _allocate/_release from an arbitrary valid MDD state over two integer variables (arities 2-3), node contents, counts, ledger and a computed-table entry symbolic; pointwise connectives on <= 9 integer assignments as bit-vectors; MDD canonicity lemma.',
+        note='Claimed for the MDD manager steps only (small bounds, node numbers concrete, operand references enumerated by the dict lookups of the real code). bdd_to_mdd is NOT covered: see DESIGN.md section 10 (its reorder/cofactor/zone logic concretises the whole BDD; only enumeration would remain).',
+        ref='DESIGN.md section 8 C15'),
     'C16': dict(
         text='Bounded symbolic model checking of dddmp.load: real header parse of concrete header variants (varinfo 0/1/3, gaps, orderedvarnames), then the real _add_node/load/find_or_add on symbolic node rows (any numbering with children before parents, symbolic children, complement marks, 1-2 roots); z3 proves every element of roots denotes the file\'s root entry by name.',
         note='Cut at the row level: line.split/int() of node lines is replaced by a loop feeding _add_node (text cannot be symbolic); module run through the literal-lifting loader; every model is replayed with a real file on the unlifted module.',
